@@ -194,6 +194,9 @@ LITERALS: List[Tuple[str, str]] = [
     ("bytesoctbig", "b'\\400'"), ("byteshex", "b'\\xff'"), ("bytesu4", "b'\\u0041'"), ("bytesu4big", "b'\\u1234'"),
     ("bytesU8", "b'\\U0001F431'"), ("bytesU8", "b'\\U00000041'"), ("bytesuni", "b'é'"), ("bytesrawuni", "br'é'"),
     ("bytesrawuni", "br'€'"), ("bytesbs", "b'\\q'"),
+    # longer than Python's integer-string conversion limit (4300 digits)
+    ("intlong", "1" * 4400), ("intlong", "-" + "1" * 4400), ("intlong", "0" * 4400 + "7"), ("uintlong", "1" * 4400 + "u"),
+    ("floatlong", "1" * 4400 + ".5"), ("inthexlong", "0x" + "f" * 4400), ("strlong", "'" + "a" * 5000 + "'"),
 ]
 
 
